@@ -106,6 +106,23 @@ pub struct Reader {
     pub read: std::rc::Rc<dyn Fn() -> String>,
 }
 
+impl Reader {
+    /// `{L}` is the locale name; `{CARD0}` / `{ORD2}` the CLDR plural category of 0 (cardinal) / 2 (ordinal) in that
+    /// locale, written by hand for the fixture's locales
+    pub fn expected(&self, locale: &str) -> String {
+        let card0 = match locale {
+            "fr" | "fr-CA" | "pt-br" => "one",
+            "ar" => "zero",
+            _ => "other",
+        };
+        let ord2 = match locale {
+            "en" => "two",
+            _ => "other",
+        };
+        self.template.replace("{L}", locale).replace("{CARD0}", card0).replace("{ORD2}", ord2)
+    }
+}
+
 pub struct ViewH {
     pub kind: &'static str,
     pub get: std::rc::Rc<dyn Fn() -> Locale>,
@@ -263,7 +280,7 @@ pub fn view_cell(cur: std::rc::Rc<dyn Fn() -> I18nContext<Locale>>) -> ViewH {
         get_untracked: Box::new(move || c2().get_locale_untracked()),
         set: Box::new(move |l| c3().set_locale(l)),
         set_untracked: Box::new(move |l| c4().set_locale_untracked(l)),
-        n_readers: 14,
+        n_readers: 16,
         make_reader: Box::new(move |i| (view_root(c5()).make_reader)(i)),
         n_scopes: 8,
         make_scope: Box::new(move |i| (view_root(c6()).make_scope)(i)),
@@ -278,8 +295,8 @@ pub fn view_root(ctx: I18nContext<Locale>) -> ViewH {
         get_untracked,
         set,
         set_untracked,
-        n_readers: 14,
-        make_reader: Box::new(move |i| match i % 14 {
+        n_readers: 16,
+        make_reader: Box::new(move |i| match i % 16 {
             0 => {
                 let f = t!(ctx, common.hello);
                 reader!("t!(common.hello)", "hello[{L}]", move || render(f()))
@@ -313,6 +330,16 @@ pub fn view_root(ctx: I18nContext<Locale>) -> ViewH {
                 reader!("t!(common.app.version, v)", "app.version[{L}] 3", move || render(f()))
             }
             11 => reader!("tu_display!(home.title)", "title[{L}]", move || tu_display!(ctx, home.title).to_string()),
+            14 => {
+                use leptos_i18n::plurals::t_plural;
+                let f = t_plural!(ctx, count = || 0, zero => "zero", one => "one", two => "two", few => "few", many => "many", _ => "other");
+                reader!("t_plural!(count = 0)", "{CARD0}", move || f().to_string())
+            }
+            15 => {
+                use leptos_i18n::plurals::t_plural_ordinal;
+                let f = t_plural_ordinal!(ctx, count = || 2, zero => "zero", one => "one", two => "two", few => "few", many => "many", _ => "other");
+                reader!("t_plural_ordinal!(count = 2)", "{ORD2}", move || f().to_string())
+            }
             12 => reader!("td_string!(scope_locale!(common.app), name)", "app.name[{L}]", move || {
                 let l = scope_locale!(ctx.get_locale(), common.app);
                 td_string!(l, name).to_string()
